@@ -415,7 +415,22 @@ func c23(x *Ctx) {
 			if f == nil || f.Blocks == nil {
 				continue
 			}
-			for _, rv := range returnedValues(f, 0) {
+			// the refusals this function can return, looking through a helper it delegates to
+			var vals []ssa.Value
+			var collect func(g *ssa.Function, depth int)
+			collect = func(g *ssa.Function, depth int) {
+				for _, rv := range returnedValues(g, 0) {
+					if cl, ok := rv.(*ssa.Call); ok && depth < 2 {
+						if h := cl.Call.StaticCallee(); h != nil && h.Blocks != nil && x.P.FuncRel(h) == "collect" {
+							collect(h, depth+1)
+							continue
+						}
+					}
+					vals = append(vals, rv)
+				}
+			}
+			collect(f, 0)
+			for _, rv := range vals {
 				if k, ok := rv.(*ssa.Const); ok && k.IsNil() {
 					continue
 				}
